@@ -695,15 +695,16 @@ class HistoryRunner:
         S = lambda n, k, v, **kw: dict({"op": "set", "n": n, "k": k, "v": v}, **kw)   # noqa: E731
         if r < 0.25:
             return []
+        # (identities are allocated in call order, nodes and leaves from one counter: nodes first, leaves last)
         if r < 0.45:      # chain 0 -> 1 -> 2 with leaves
-            return [T(), T(), T(), S(0, "a", "leaf"), S(0, "b", 1), S(1, "c", 2), S(1, "a", "leaf"), S(2, "d", "leaf")]
+            return [T(), T(), T(), S(0, "b", 1), S(1, "c", 2), S(0, "a", "leaf"), S(1, "a", "leaf"), S(2, "d", "leaf")]
         if r < 0.65:      # node 2 under two roots 0 and 1, with a nested child 3
             return [T(), T(), T(), T(), S(0, "a", 2), S(1, "b", 2), S(2, "c", 3), S(3, "d", "leaf"), S(0, "d", "leaf")]
-        if r < 0.85:      # lazy stack 4 = [1, 2] (members nested) under root 0
-            return [T(), T(), T(), T(), S(1, "a", "leaf"), S(2, "a", "leaf"), S(1, "b", 3), {"op": "newlazy", "ms": [1, 2]}, S(0, "c", 4)]
-        # lazy stack of lazy stacks, members shared with a plain root
-        return [T(), T(), T(), {"op": "newlazy", "ms": [0, 1]}, {"op": "newlazy", "ms": [2]}, T(), S(5, "a", 0),
-                {"op": "newlazy", "ms": [3, 3]}]
+        if r < 0.85:      # lazy stack 4 = [1, 2] (member 1 nested) under root 0
+            return [T(), T(), T(), T(), {"op": "newlazy", "ms": [1, 2]}, S(1, "b", 3), S(0, "c", 4), S(1, "a", "leaf"), S(2, "a", "leaf")]
+        # lazy stack 6 of lazy stacks [3, 3]; member 0 of 3 is also held by the plain root 5
+        return [T(), T(), T(), {"op": "newlazy", "ms": [0, 1]}, {"op": "newlazy", "ms": [2]}, T(), {"op": "newlazy", "ms": [3, 3]},
+                S(5, "a", 0)]
 
     def run_with_block(self, body_len):
         """`with h.unlock_(): body` / `with h.lock_(): body` executed as a real with-statement; the model sees the op sequence"""
